@@ -83,6 +83,16 @@ CURATED_MODES = [
                 ("B", [tok("P2", lit("p")), tok("C2", lit(")"), ["pop"])])]),
     spec("pop-on-empty", [tok("P0", lit("p")), tok("C", lit(")"), ["pop"])]),
     spec("frag-accum-default", [tok("END", lit(";")), frag(plus(cls(["a-z"]))), frag(lit(" "), ["discard"])]),
+    # a declared mode that nothing pushes, sorting before / between the modes that are pushed (mode numbers are positions in
+    # the name-sorted list of *all* modes)
+    spec("unused-mode-sorts-first", [tok("P0", lit("p")), tok("OT", lit("<"), ["push", "Tag"])],
+         modes=[("Attr", [tok("PA", lit("p")), tok("QA", lit("q"))]),
+                ("Tag", [tok("P1", lit("p")), tok("CT", lit(">"), ["pop"]), tok("OX", lit("'"), ["push", "Text"])]),
+                ("Text", [tok("P2", lit("p")), tok("CX", lit("'"), ["pop"])])]),
+    spec("unused-mode-in-the-middle", [tok("P0", lit("p")), tok("OA", lit("("), ["push", "A"])],
+         modes=[("A", [tok("P1", lit("p")), tok("CA", lit(")"), ["pop"]), tok("OC", lit("["), ["push", "C"])]),
+                ("B", [tok("PB", lit("p"))]),
+                ("C", [tok("P2", lit("p")), tok("CC", lit("]"), ["pop"])])]),
     # a mode-switching rule whose match can be extended: it is a proper prefix of another rule, or ends in a repetition
     # (longest match decides first, then the mode action of the rule that won runs)
     spec("push-is-prefix", [tok("P0", lit("p")), tok("O1", lit("{"), ["push", "M"]), tok("O2", lit("{{")), tok("CC", lit("}"), ["pop"])],
